@@ -36,6 +36,27 @@ def run(ctx):
         # the connect greeting itself under segmentation
         if len(samples) < 3:
             samples.append({"op": op, "reply": reply.decode("latin-1"), "schedules": len(scheds)})
+    # replies much larger than one read (scripts of several kB, listings of hundreds of names): whole, in blocks, cut inside
+    # the first line, around the read size, byte by byte
+    body = b"".join(b"# line %04d of a long script\r\n" % i for i in range(180))
+    big = [("getscript", ("n",), b"{%d}\r\n" % len(body) + body + b"\r\nOK\r\n"),
+           ("listscripts", (), b"".join(b'"script%03d"\r\n' % i for i in range(900)) + b'"x" ACTIVE\r\nOK "done"\r\n'),
+           ("putscript", ("n", "keep;"), b'NO (QUOTA/MAXSIZE) {%d}\r\n' % 6000 + b"e" * 6000 + b"\r\n")]
+    for op, args, reply in big:
+        base, breqs = ms_cases.run_case(op, args, reply, [])
+        n = len(reply)
+        scheds = [[k] + [4096] * 8 for k in range(1, 12)] + [[1000] * (n // 1000 + 2), [4095] * 4, [4096] * 4, [4097] * 4, [4096, 1, 4096, 1, 4096],
+                  [n - 1, 1], [n - 2, 1, 1], [1] * n, [7] * (n // 7 + 2), [64] * (n // 64 + 2)]
+        for sc in scheds:
+            outs, reqs = ms_cases.run_case(op, args, reply, sc)
+            evals += 1
+            nontriv += 1
+            if outs != base:
+                k = next((j for j, (x, y) in enumerate(zip(outs, base)) if x != y), min(len(outs), len(base)))
+                viol.append({"op": op, "args": repr(args), "reply_hex": reply[:200].hex(), "reply": reply[:80].decode("latin-1") + "…(%d bytes)" % n, "schedule": sc[:12],
+                             "what": "large reply, step %d differs from unsegmented delivery: %s  vs  %s" % (k, (outs + ["<missing>"])[k][:160], (base + ["<missing>"])[k][:160])})
+        lines += breqs
+        expect += base
     for sc in ms_cases.schedules(len(ms_cases.GREETING + ms_cases.AUTH_OK), r, "quick")[:60]:
         base, _ = ms_cases.run_case("havespace", ("n", 1), b"OK\r\n", [], sched_connect=[])
         outs, reqs = ms_cases.run_case("havespace", ("n", 1), b"OK\r\n", [], sched_connect=sc)
